@@ -67,6 +67,19 @@ CLAIMS = {
              'FIFO model. Floats in to_milliseconds treated as exact reals.',
         technique='contract-based deductive verification: VCs from the real AST with ghost clock/credit and a symbolic FIFO queue, z3',
         design='5/C14'),
+    'C05': dict(
+        level='proof',
+        text='The send queue is modelled as an ARBITRARY FIFO of sources with ghost stream / enqueue-sequence / started attributes. The '
+             'queue invariant Inv_Q (per stream: FIFO by enqueue order, and only the oldest source of a stream may have started) is proved '
+             'to be preserved by send_frame and by each of the three emission cases of the real _get_next_frame_to_send (quantified, '
+             'unbounded), and every emitted frame is proved to belong to the head source, hence to the oldest source of its stream with '
+             'no other source of that stream started. One sender iteration writes exactly that frame and resolves exactly its sent_future.',
+        note=TRUST + 'L-QUEUE (legality at every emission => per-stream order and fragment contiguity of the wire log) is a meta-level '
+             'induction over emissions. asyncio.Queue/QueuePeekable.peek and get_next_fragment are used through contracts (peek verified; '
+             'get_next_fragment under C03). Bounded stand-ins, not counted as proved: send_priority_frame (queue length <= 5), '
+             'contains_after_head (<= 4), and the bounded instances of the emission step that supply concrete counter-models.',
+        technique='contract-based deductive verification: quantified queue invariant + ghost sequence numbers over a symbolic FIFO, z3',
+        design='5/C05'),
 }
 
 NOT_YET = 'contracts for this property are not built yet'
